@@ -10,7 +10,7 @@ import (
 
 // ---- C16: a schema means the same however its definitions are ordered or split ---------------------
 
-const introQuery = `{ __schema { queryType { name } mutationType { name }
+const introQuery = `{ __schema { queryType { name } mutationType { name } subscriptionType { name }
  types { kind name description
   fields(includeDeprecated: true) { name description isDeprecated deprecationReason
     args { name description defaultValue type { kind name ofType { kind name ofType { kind name ofType { kind name } } } } }
